@@ -1,7 +1,8 @@
 #!/bin/bash
 # Evaluate sub-agent worktrees (see tools/seeded.py).
 #   tools/seeded_all.sh 1|2        round 1 (/tmp/seed) or round 2 (/tmp/seed2)
-#   ONLY="C03 C07" restricts to those properties.
+#   ONLY="C03 C07" restricts to those properties; SEEDED_CHECKS=C02,C09 restricts the
+#   checks that are run against each change (its own property's check always runs).
 cd "$(dirname "$0")/.."
 ROUND="${1:-1}"
 if [ "$ROUND" = "1" ]; then
@@ -39,6 +40,6 @@ for spec in $SPECS; do
   name="${spec%%:*}"; prop="${spec##*:}"
   if [ -n "${ONLY:-}" ] && [[ " $ONLY " != *" $prop "* ]]; then continue; fi
   echo "=== $name"
-  python3 tools/seeded.py eval "$name" "$prop" "$ROOT/$prop" 2>&1 | grep -v WARNING | tail -4 | cut -c1-900
+  python3 tools/seeded.py eval "$name" "$prop" "$ROOT/$prop" ${SEEDED_CHECKS:+--checks $SEEDED_CHECKS} 2>&1 | grep -v WARNING | tail -4 | cut -c1-900
 done
 echo ALLDONE
